@@ -76,7 +76,13 @@ def handle (inp impl : Json) : CaseResult :=
     | true, .req r :: .resp ack :: _ => proven r && ack.observed == e.ownAddr && ack.role == e.ownRole
     | false, .resp ec :: .req r :: _ => proven r && ec.observed == e.ownAddr && ec.role == e.ownRole
     | _, _ => false
-  let ok := !(jbool impl "panic") && (!admitted || grounds) &&
+  -- caller level: the block a refused handshake leaves behind is the one the failure class calls for
+  let blockOk := !callerLevel || admitted ||
+    (let c := caller inbound false o.outcome
+     match c.blocked with
+     | some d => jhas impl "blocked" && jnat impl "blocked" == d
+     | none => !(jhas impl "blocked"))
+  let ok := !(jbool impl "panic") && (!admitted || grounds) && blockOk &&
     (admitted || (!(jbool impl "notified") && !(jhas impl "registered"))) && jnat impl "lookups" ≤ 1 &&
     -- a registry lookup happens only after the signature and address checks passed
     (jnat impl "lookups" == 0 || (match inbound, remote with
@@ -89,6 +95,7 @@ def handle (inp impl : Json) : CaseResult :=
     why := if ok then "" else
       if jbool impl "panic" then "handshake-panicked"
       else if admitted && !grounds then "peer-admitted-without-proof-of-address-role-or-stake"
+      else if !blockOk then "failed-handshake-left-the-wrong-block-or-none"
       else if !admitted then "refused-handshake-left-peer-registered-or-announced"
       else "registry-consulted-before-signature-and-address-checks" }
 end Driver.C04
